@@ -369,6 +369,18 @@ def verify_contract(c, contracts, cfg=None):
                 a["failing"] = {"path_outcome": pr.outcome, "decisions": pr.decisions, **(det if isinstance(det, dict) else {})}
         if len(samples) < 3 and pr.outcome not in ("infeasible",):
             samples.append({"path": paths, "outcome": pr.outcome, "obligations": [f"{l}={s}" for l, s, _ in pr.obligations][:12]})
+    # syntactic frame scan (over-approximation, independent of path exploration)
+    try:
+        from . import framescan
+        it0 = Interp(world, [], contracts)
+        hits = framescan.scan(it0.get_func(c.file, c.func))
+        if hits:
+            agg["frame:syntactic-no-shared-state"] = {"status": "refuted", "paths": 1, "backends": {"ast-scan": 1},
+                                                       "failing": {"violations": hits, "no_model": True, "counterexample": None, "backend": "ast-scan"}}
+        else:
+            agg["frame:syntactic-no-shared-state"] = {"status": "discharged", "paths": 1, "backends": {"ast-scan": 1}, "failing": None}
+    except KeyError:
+        pass
     # every clause of the contract must have been exercised on at least one path (zero-obligation guard)
     expected = [f"post:{cl.label}" for cl in c.returns_]
     missing = [l for l in expected if l not in agg]
